@@ -59,6 +59,7 @@ class Config:
         self.havoc_loops = False  # allow generic havoc schema for loops without a spec
         self.ext_opaque = ()      # dotted-name prefixes of external callables modelled as "traced, opaque result, may not raise"
         self.ob_prefix = ""       # property prefix of engine-generated obligations (loop contracts), e.g. "C03/"
+        self.ext_consts = {}      # dotted name of an external constant (e.g. "zlib.MAX_WBITS") -> value
 
 
 class Frame:
@@ -914,6 +915,8 @@ class Interp:
                 if sub is not None:
                     return ModRef(sub.name)
             raise Unsupported(f"attribute {attr} of module {modname}")
+        if f"{modname}.{attr}" in self.cfg.ext_consts:
+            return self.cfg.ext_consts[f"{modname}.{attr}"]
         return Ext(f"{modname}.{attr}")
 
     # ------------------------------------------------------------------ attribute access
@@ -1003,6 +1006,8 @@ class Interp:
         if isinstance(v, Ext):
             if name == "__name__":
                 return v.name.split(".")[-1]
+            if f"{v.name}.{name}" in self.cfg.ext_consts:
+                return self.cfg.ext_consts[f"{v.name}.{name}"]
             return Ext(f"{v.name}.{name}")
         if isinstance(v, SuperRef):
             mro = v.obj.cls.mro(self.repo) if isinstance(v.obj, Obj) else v.obj.ci.mro(self.repo)
@@ -2431,5 +2436,5 @@ _BUILTIN_NAMES = {
     "range", "enumerate", "sorted", "min", "max", "list", "tuple", "dict", "set", "frozenset", "zip", "any", "all",
     "iter", "next", "repr", "type", "id", "callable", "abs", "sum", "hex", "format", "print", "float", "object",
     "reversed", "map", "filter", "open", "property", "staticmethod", "classmethod", "ord", "chr", "divmod", "round",
-    "memoryview", "delattr", "vars", "super", "slice",
+    "memoryview", "delattr", "vars", "super", "slice", "hash",
 }
